@@ -33,7 +33,8 @@ def main():
     checks = a[a.index("--checks") + 1].split(",") if "--checks" in a else [prop]
     meta = json.load(open(os.path.join(out, "meta.json")))
     demo_cmd = meta["demo_cmd"]
-    wt = "/tmp/seedv/wt-%s" % os.path.basename(out.rstrip("/"))
+    tag = "%s-%s" % (os.path.basename(os.path.dirname(out.rstrip("/"))), os.path.basename(out.rstrip("/")))   # e.g. out3-C11: rounds do not collide
+    wt = "/tmp/seedv/wt-%s" % tag
     sh("git -C %s worktree remove --force %s" % (REPO, wt))
     shutil.rmtree(wt, ignore_errors=True)
     os.makedirs(os.path.dirname(wt), exist_ok=True)
@@ -41,7 +42,7 @@ def main():
     if rc != 0:
         print(o)
         return 2
-    tmpd = "/tmp/seedv/tmp-%s" % os.path.basename(out.rstrip("/"))
+    tmpd = "/tmp/seedv/tmp-%s" % tag
     os.makedirs(tmpd, exist_ok=True)
     # private TMPDIR: the stubgen tests of the pinned suite write to $TMPDIR/trustfall_stubgen and collide across concurrent runs
     # WT: demo scripts that build from "the worktree" (C27's Python demos) take its location from this variable
@@ -115,7 +116,7 @@ def main():
         return finish(res, prev.get("checks", {}), out, a + (["--skip-suite"] if "suite_ok" not in res else []))
     if "--scratch" in a:
         # same checks, but against a scratch copy of /repo (used while something else is reading /repo)
-        sc = "/tmp/seedv/repo-%s" % os.path.basename(out.rstrip("/"))
+        sc = "/tmp/seedv/repo-%s" % tag
         sh("rsync -a --delete --exclude /target --exclude .git %s/ %s/" % (REPO, sc))
         rc, o = sh("git apply --whitespace=nowarn %s" % os.path.join(out, "patch.diff"), cwd=sc)
         if rc != 0:
